@@ -570,15 +570,77 @@ def gen_dataset(rng, k):
     kind = kinds[k % len(kinds)]
     family = "billing" if k % 4 == 3 else "daily"
     profile = rng.choice(["current", "current", "legacy"]) if family == "daily" else "billing"
+    if k < 0:      # reused estimator objects: -1 daily/current, -2 daily/legacy, -3 billing, then random
+        family, profile = [("daily", "current"), ("daily", "legacy"), ("billing", "billing")][(-k - 1) % 3]
+        seq = ["cold_heating", "warm_cooling"] if (-k - 1) < 3 or rng.random() < 0.6 else ["warm_cooling", "cold_heating"]
+        return {"kind": "reused_object", "family": family, "profile": profile, "sequence": seq, "seed": rng.randrange(2**31),
+                "ndays": rng.choice([340, 365]), "noise": rng.choice([0.02, 0.05])}
     return {"kind": kind, "family": family, "profile": profile, "seed": rng.randrange(2**31), "ndays": rng.choice([330, 350, 365]),
             "noise": rng.choice([0.01, 0.03, 0.08, 0.2])}
 
 
+CLIMATES = {   # (temperature mean, amplitude), usage model
+    "cold_heating": {"t_mean": 38.0, "t_amp": 20.0, "base": 120.0, "bh": 6.0, "bc": 0.0, "bph": 60.0, "bpc": 75.0},
+    "warm_cooling": {"t_mean": 76.0, "t_amp": 12.0, "base": 8.0, "bh": 0.0, "bc": 0.9, "bph": 50.0, "bpc": 68.0},
+}
+
+
+def climate_data(rng, family, climate, ndays, noise):
+    """a baseline data object in a given climate (daily frame, or monthly bills + hourly temperature)"""
+    import fitlib
+    import pandas as pd
+    c = CLIMATES[climate]
+    um = {k: c[k] for k in ("base", "bh", "bc", "bph", "bpc")}
+    if family == "daily":
+        idx = pd.date_range("2022-01-01", periods=ndays, freq="D", tz="US/Pacific")
+        T = fitlib.weather_daily(rng, ndays, t_mean=c["t_mean"], t_amp=c["t_amp"])
+        y = fitlib.usage_from_temp(rng, T, noise=noise, **um)
+        return fitlib.daily_baseline(pd.DataFrame({"observed": y, "temperature": T}, index=idx))
+    starts = [pd.Timestamp("2021-12-15", tz="US/Pacific")]
+    for _ in range(12):
+        starts.append((starts[-1] + pd.Timedelta(days=rng.randrange(28, 33))).normalize())
+    nd = (starts[-1] - starts[0]).days + 2
+    didx = pd.date_range(starts[0], periods=nd, freq="D", tz="US/Pacific")
+    T = fitlib.weather_daily(rng, nd, t_mean=c["t_mean"], t_amp=c["t_amp"])
+    daily = pd.Series(fitlib.usage_from_temp(rng, T, noise=noise, **um), index=didx)
+    vals = [daily[(daily.index >= a) & (daily.index < b)].sum() for a, b in zip(starts[:-1], starts[1:])] + [np.nan]
+    meter = pd.Series(vals, index=pd.DatetimeIndex(starts), name="observed")
+    hidx = pd.date_range(starts[0], periods=nd * 24, freq="h", tz="US/Pacific")
+    temp = pd.Series(np.repeat(T, 24)[: len(hidx)], index=hidx, name="temperature")
+    return fitlib.billing_baseline(meter, temp)
+
+
+def component_days(model, data, comp):
+    """the days of a component, computed from the DATA OBJECT handed to the last fit() (not from the model's state):
+    rows with finite temperature and usage, season by month and weekday/weekend by day of week as the settings say"""
+    df = getattr(data, model._data_df_name)
+    df = df[np.isfinite(df["temperature"].to_numpy(dtype=float)) & np.isfinite(df["observed"].to_numpy(dtype=float))].sort_index()
+    season_of_month = dict(model.settings.season._num_dict)
+    daytype_of_dow = dict(model.settings.weekday_weekend._num_dict)
+    long = {"su": "summer", "sh": "shoulder", "wi": "winter"}
+    seasons = [long[x] for x in comp[3:].split("_")]
+    sea = np.array([season_of_month[m] for m in df.index.month])
+    keep = np.isin(sea, seasons)
+    if comp[:2] != "fw":
+        dt = np.array([daytype_of_dow[d + 1] for d in df.index.dayofweek])
+        keep &= dt == ("weekday" if comp[:2] == "wd" else "weekend")
+    return df[keep]
+
+
 def build_and_fit(ds):
+    """returns (model, data of the LAST fit)"""
     import random
     import fitlib
     from opendsm.eemeter import BillingModel, DailyModel
     rng = random.Random(ds["seed"])
+    if ds["kind"] == "reused_object":
+        # one estimator object fitted twice: first in a cold climate (heating), then in a warm one (cooling)
+        model = BillingModel() if ds["family"] == "billing" else (DailyModel(model="legacy") if ds["profile"] == "legacy" else DailyModel())
+        data = None
+        for climate in ds["sequence"]:
+            data = climate_data(rng, ds["family"], climate, ds["ndays"], ds["noise"])
+            model.fit(data, ignore_disqualification=True)
+        return model, data
     kw = {"both": {}, "heating_only": {"bc": 0.0}, "cooling_only": {"bh": 0.0}, "flat": {"bh": 0.0, "bc": 0.0},
           # usage that peaks in mild weather and falls off toward cold and hot days: the initial guess finds neither a
           # heating nor a cooling response (both slopes zero -> identical [0,0] slope bounds)
@@ -597,15 +659,15 @@ def build_and_fit(ds):
         data = fitlib.billing_baseline(meter, temp)
         model = BillingModel()
     model.fit(data, ignore_disqualification=True)
-    return model
+    return model, data
 
 
-def stream_fits(run, n):
+def stream_fits(run, n, n_reused=0):
     acc = {"refine": [], "curves": [], "meta": []}
-    for k in range(n):
+    for k in list(range(n)) + [-(j + 1) for j in range(n_reused)]:
         ds = gen_dataset(run.rng, k)
         try:
-            model = build_and_fit(ds)
+            model, data = build_and_fit(ds)
         except Exception as e:  # noqa
             run.violation({"stream": "fits", "clause": "fit completes", "raised": type(e).__name__, "family": ds["family"]},
                           "C12: fit raised %s: %s" % (type(e).__name__, e), case={"dataset": ds}, generator="c12.fits")
@@ -613,6 +675,7 @@ def stream_fits(run, n):
         run.dist("fit_dataset", "%s/%s/%s" % (ds["family"], ds["profile"], ds["kind"]))
         comps = [("fit_components", c, r) for c, r in model.fit_components.items()] + \
                 [("model", c, r) for c, r in model.model.items()]
+        limits_of = {}
         for where, comp, res in comps:
             raw = [float(v) for v in res._verif_x_raw]
             bnds = np.asarray(res._verif_bnds, dtype=float)
@@ -625,23 +688,32 @@ def stream_fits(run, n):
                 run.violation(dict(sig, clause="oracle contract: raw in box"),
                               "C12 %s: the optimiser returned a point outside the box it was given" % label,
                               case={"dataset": ds, "component": comp, "raw": raw, "bnds": bnds.tolist()}, generator="c12.fits")
-            obs_vals = np.asarray(res.obs, float)
-            q = [float(v) for v in np.quantile(obs_vals, [0.01, 0.99])]
+            # the days of this component according to the data object of the LAST fit
+            days = component_days(model, data, comp)
+            seg = days["temperature"].to_numpy(dtype=float)
+            q = [float(v) for v in np.quantile(days["observed"].to_numpy(dtype=float), [0.01, 0.99])]
             info = {"pinned": None, "initial_box": where == "fit_components", "dataset": ds, "component": comp}
             if key == "c_hdd_tidd" and bnds[0, 0] == bnds[0, 1]:
                 info["pinned"] = "T_max" if raw[0] >= float(res.T_max) else "T_min"
             obs, tc = process_component(run, acc, key, raw, res.T, info, res, "fits", label, model_vals=res.model, q=q)
             run.count(vlib.sha([ds, where, comp]), key != "tidd")
             # recorded limits are those of the days the component was fitted on
-            seg = model._meter_segment(comp)["temperature"].to_numpy(dtype=float)
             n_seg = res.settings.segment_minimum_count
             want = [float(np.min(seg)), float(np.max(seg)), float(np.partition(seg, n_seg)[n_seg]),
                     float(np.partition(seg, -n_seg)[-n_seg])]
             if want != tc:
-                run.violation(dict(sig, clause="temperature limits are those of the fitted days"),
+                run.violation(dict(sig, clause="temperature limits are those of the fitted days", **{"class": "admissibility"}),
                               "C12 %s: recorded temperature limits differ from the days it was fitted on" % label,
                               case={"dataset": ds, "component": comp}, observation={"recorded": tc, "days": want},
                               generator="c12.fits")
+                # the admissibility list against the real days (the component's own statistics were used above)
+                for clause in admissibility(obs[2], want, q, float(res.f_unc)):
+                    run.violation(dict(sig, clause=clause, cause="recorded limits are not those of the fitted days",
+                                       **{"class": "admissibility"}),
+                                  "C12 %s: stored sub-model breaks '%s' on the days of the baseline it was fitted on" % (label, clause),
+                                  case={"dataset": ds, "component": comp}, observation={"named": obs[2], "days": want, "usage_q": q},
+                                  generator="c12.fits")
+            limits_of[comp] = (want, q)
         # the stored document is what the final components say
         doc = model.to_dict()["submodels"]
         for comp, res in model.model.items():
@@ -660,12 +732,20 @@ def stream_fits(run, n):
                               "C12 %s: to_dict()['submodels'][%s] differs from the final component" % (ds["family"], comp),
                               case={"dataset": ds, "component": comp}, observation={"doc": got, "named": named, "tc": tcd},
                               generator="c12.fits")
-            for clause in admissibility(got, tcd, None, float(sub["f_unc"])) if got else ["sub-model present"]:
+            want_d, q_d = limits_of.get(comp, (tcd, None))
+            if got and tcd != want_d:
+                run.violation({"stream": "fits", "clause": "temperature limits are those of the fitted days", "where": "to_dict",
+                               "class": "admissibility"},
+                              "C12 %s to_dict()[%s]: recorded temperature limits are not those of the days of the fitted baseline"
+                              % (ds["family"], comp), case={"dataset": ds, "component": comp},
+                              observation={"recorded": tcd, "days": want_d}, generator="c12.fits")
+            for clause in admissibility(got, want_d, q_d, float(sub["f_unc"])) if got else ["sub-model present"]:
                 run.violation({"stream": "fits", "clause": clause, "where": "to_dict", "key": "stored", "cause": "none"},
                               "C12 %s to_dict()[%s]: stored sub-model breaks '%s'" % (ds["family"], comp, clause),
                               case={"dataset": ds, "component": comp}, observation={"doc": got, "tc": tcd},
                               generator="c12.fits")
-        run.log("fit %d/%d (%s %s) done: %d components" % (k + 1, n, ds["family"], ds["kind"], len(comps)))
+        run.log("fit %s (%s %s) done: %d components" % (("%d/%d" % (k + 1, n)) if k >= 0 else ("reused#%d" % -k), ds["family"],
+                                                        ds["kind"], len(comps)))
     flush(run, acc, "fits")
 
 
@@ -680,7 +760,9 @@ def main():
         "through the real OptimizedResult constructor on a component with chosen temperature statistics; distinct = hash(layout, "
         "raw, statistics), non-trivial = layout other than tidd. fits: DailyModel/BillingModel.fit on generated baselines "
         "(both / heating-only / cooling-only / flat / inverted = peaking in mild weather / no-flat-region / weekend / outliers; 330-365 days; noise 1-20 %; current, "
-        "legacy and billing profiles); every OptimizedResult of fit_components and model is one evaluation. bounds: start boxes and "
+        "legacy and billing profiles), plus REUSED estimator objects (one DailyModel/BillingModel fitted in a cold heating climate and "
+        "then in a warm cooling climate; oracle against the data object of the last fit); every OptimizedResult of fit_components and "
+        "model is one evaluation; the days of a component are recomputed from the data object, not read from the model. bounds: start boxes and "
         "get_bnds(x0) rows with every degenerate pattern (zero slopes -> [0,0], identical non-zero, [0,2x0], [2x0,0], reversed, "
         "negative, equal balance-point limits, identical quantiles, new_bnds=None) through the three *_update_bnds functions as "
         "the fit functions call them; fix_identical_bnds row by row (0, powers of ten, negatives)")
@@ -721,7 +803,7 @@ def main():
         stream_bounds(run, run.n(600, 20000))
         stream_from_np(run, run.n(400, 10000))
     if os.environ.get("C12_NOFITS") != "1":
-        stream_fits(run, run.n(10, 200))
+        stream_fits(run, run.n(10, 200), n_reused=run.n(3, 30))
     run.finish()
 
 
